@@ -52,8 +52,10 @@ def gen_ref(rng, depth=0):
 
 
 def gen_expr(rng, depth=0):
+    # expression structure is C03's business: keep them small (parsing them dominates the run time)
+    depth += 1
     r = rng.random()
-    if depth >= 2 or r < 0.35:
+    if depth >= 3 or r < 0.5:
         k = rng.random()
         if k < 0.45:
             return str(rng.randint(0, 12))
@@ -99,11 +101,11 @@ def cmt(rng):
 
 def gen_eq(rng, depth=0):
     r = rng.random()
-    if depth >= 2 or r < 0.6:
+    if depth >= 1 or r < 0.7:
         return "%s = %s%s" % (gen_expr(rng, 1), gen_expr(rng, 0), cmt(rng))
-    if r < 0.72:
+    if r < 0.8:
         return "connect(%s, %s)%s" % (gen_ref(rng), gen_ref(rng), cmt(rng))
-    if r < 0.86:
+    if r < 0.9:
         s = "if %s then %s" % (gen_expr(rng, 1), gen_block(rng, gen_eq, depth + 1))
         for _ in range(rng.choice([0, 0, 1])):
             s += "elseif %s then %s" % (gen_expr(rng, 1), gen_block(rng, gen_eq, depth + 1))
@@ -116,12 +118,12 @@ def gen_eq(rng, depth=0):
 
 def gen_stmt(rng, depth=0):
     r = rng.random()
-    if depth >= 2 or r < 0.6:
+    if depth >= 1 or r < 0.7:
         return "%s := %s%s" % (gen_ref(rng), gen_expr(rng, 0), cmt(rng))
-    if r < 0.7:
+    if r < 0.8:
         return "(%s) := %s(%s)" % (", ".join(gen_ref(rng) for _ in range(rng.randint(2, 3))), rng.choice(["f", "Pkg.g"]),
                                    ", ".join(gen_expr(rng, 1) for _ in range(rng.randint(1, 2))))
-    if r < 0.86:
+    if r < 0.9:
         s = "if %s then %s" % (gen_expr(rng, 1), gen_block(rng, gen_stmt, depth + 1))
         if rng.random() < 0.5:
             s += "else %s" % gen_block(rng, gen_stmt, depth + 1)
@@ -131,7 +133,7 @@ def gen_stmt(rng, depth=0):
 
 
 def gen_block(rng, g, depth):
-    return "".join(g(rng, depth) + "; " for _ in range(rng.randint(0, 2)))
+    return "".join(g(rng, depth) + "; " for _ in range(rng.choice([0, 1, 1, 2])))
 
 
 # ---- modifications ------------------------------------------------------------------------
@@ -359,10 +361,10 @@ class Gen:
                                       "elems": self.gen_elems(st, depth, int(rng.randint(0, 3) * scale + 0.5))})
             elif k == "eqs":
                 c["sections"].append({"t": "eqs", "initial": rng.random() < 0.35,
-                                      "eqs": [gen_eq(rng) for _ in range(rng.randint(0, 3))]})
+                                      "eqs": [gen_eq(rng) for _ in range(rng.choice([0, 1, 1, 2, 3]))]})
             else:
                 c["sections"].append({"t": "algs", "initial": rng.random() < 0.35,
-                                      "stmts": [gen_stmt(rng) for _ in range(rng.randint(0, 3))]})
+                                      "stmts": [gen_stmt(rng) for _ in range(rng.choice([0, 1, 1, 2, 3]))]})
         if rng.random() < 0.12:
             c["annotation"] = gen_args(rng, 1, 2)
         return c
